@@ -44,6 +44,19 @@ def loose(a, b):
 
 # a check returns None or (category, text); category decides which property the failure belongs to:
 #   value -> the family's own properties, validity -> C11, purity/crash -> C12
+def loose_unordered(a, b):
+    """like loose, but records compare by field name (storage order of fields not significant)"""
+    if isinstance(a, dict) and isinstance(b, dict):
+        return sorted(a) == sorted(b) and all(loose_unordered(a[k], b[k]) for k in a)
+    if isinstance(a, list) and isinstance(b, list):
+        return len(a) == len(b) and all(loose_unordered(x, y) for x, y in zip(a, b))
+    if isinstance(a, tuple) and isinstance(b, tuple):
+        return len(a) == len(b) and all(loose_unordered(x, y) for x, y in zip(a, b))
+    if isinstance(a, (dict, list, tuple)) or isinstance(b, (dict, list, tuple)):
+        return False
+    return loose(a, b)
+
+
 def expect_value(ref, what="result", cmp=loose, want_valid=True):
     def check(r):
         if r.status != "OK":
@@ -277,13 +290,41 @@ def fam_combinations(rng):
                 expect_value(ref, "combinations(n=%d, replacement=%s, axis=%d) of %r" % (n, repl, axis, vals), cmp=L.same), {"value": vals, "type": T})
 
 
+def _string_sort_case(rng):
+    """lists of strings / bytestrings (1 or 2 list levels above the strings)"""
+    kind = rng.choice(["string", "bytestring"])
+    T = ("list", ("string", kind))
+    if rng.random() < 0.3:
+        T = ("list", T)
+    vals = [L.gen_value(rng, T, maxlen=4) for _ in range(rng.randint(0, 4))]
+    lay = L.Enc(rng, allow_indexed=False).encode(vals, T)
+    return T, vals, lay
+
+
+def _bytes_key(v):
+    return v.encode("utf-8", "surrogateescape") if isinstance(v, str) else bytes(v)
+
+
+def _sort_strings(x, depth, asc):
+    if depth == 0:
+        return sorted(x, key=_bytes_key, reverse=not asc)
+    return [_sort_strings(e, depth - 1, asc) for e in x]
+
+
 SORT_OPTLIST = 0.0
 SORT_OPTLEAF = 0.3
 
 
 def fam_sort(rng):
     """C06: sort(axis) orders every list along the axis (NaN first, missing last) and leaves every other level untouched;
-    missing values at the leaves only (KF-C06-sort-missing-lists)"""
+    missing values at the leaves only (KF-C06-sort-missing-lists); lists of strings sort the strings as whole units by bytes"""
+    if rng.random() < 0.15:
+        T, vals, lay = _string_sort_case(rng)
+        asc, stable = rng.random() < 0.5, rng.random() < 0.5
+        depth = struct_depth(T) - 1        # list levels above the strings, the array included
+        ref = _sort_strings(vals, depth, asc)
+        return Case("sort -1 %d %d %s" % (asc, stable, lay.tokens()),
+                    expect_value(ref, "sort(axis=-1, ascending=%s) of the strings %r" % (asc, vals), cmp=L.same), {"value": vals, "type": T})
     T = gen_pure(rng, rng.randint(0, 3), regular=0.0, optlist=SORT_OPTLIST, optleaf=SORT_OPTLEAF)
     vals = [L.gen_value(rng, T) for _ in range(rng.randint(0, 4))]
     lay = L.Enc(rng).encode(vals, T)
@@ -298,7 +339,32 @@ def fam_sort(rng):
 
 def fam_argsort(rng):
     """C06: argsort(axis) returns, per list, positions that realise the sorted order (stable: ties in original order);
-    missing values at the leaves only and at least one present leaf (KF-C06-*)"""
+    missing values at the leaves only and at least one present leaf (KF-C06-*); strings are compared as whole units"""
+    if rng.random() < 0.15:
+        T, vals, lay = _string_sort_case(rng)
+        asc, stable = rng.random() < 0.5, rng.random() < 0.5
+        depth = struct_depth(T) - 1
+
+        def okstr(got, orig, d):
+            if d == 0:
+                if not (isinstance(got, list) and sorted(got) == list(range(len(orig)))):
+                    return False
+                taken = [_bytes_key(orig[p]) for p in got]
+                want = sorted((_bytes_key(v) for v in orig), reverse=not asc)
+                if taken != want:
+                    return False
+                if stable:
+                    return all(not (taken[i] == taken[i + 1] and got[i] > got[i + 1]) for i in range(len(got) - 1))
+                return True
+            return isinstance(got, list) and len(got) == len(orig) and all(okstr(g, o, d - 1) for g, o in zip(got, orig))
+
+        def checks(r):
+            if r.status != "OK":
+                return ("value", "argsort of strings: library %s (%s %s)" % (r.status, r.exc or "", r.msg[:200]))
+            if not okstr(r.value, vals, depth):
+                return ("value", "argsort(axis=-1, ascending=%s, stable=%s) of the strings %r: library returned %s, which does not realise the sorted order" % (asc, stable, vals, r.raw[:400]))
+            return common_checks(r)
+        return Case("argsort -1 %d %d %s" % (asc, stable, lay.tokens()), checks, {"value": vals, "type": T})
     T = gen_pure(rng, rng.randint(0, 3), regular=0.0, optlist=SORT_OPTLIST, optleaf=SORT_OPTLEAF)
     vals = [L.gen_value(rng, T) for _ in range(rng.randint(0, 4))]
     if "None" in repr(vals) and not any(ch.isdigit() or ch in "TF" for ch in repr(vals).replace("None", "")):
@@ -472,9 +538,11 @@ def fam_getitem_array(rng):
     T = gen_pure(rng, rng.randint(0, 3), regular=0.25, optlist=0.0)
     n = rng.randint(1, 4)
     vals = [L.gen_value(rng, T) for _ in range(n)]
-    lay = L.Enc(rng).encode(vals, T)
+    kind = rng.choice(["int", "int", "int2", "bool", "miss", "miss"])
+    # (an index array with missing values below the first dimension of an n-dimensional NumpyArray is an explicit
+    #  "FIXME: unhandled case" RuntimeError in the library: such layouts are not generated for kind == miss)
+    lay = L.Enc(rng, allow_ndnumpy=(kind != "miss")).encode(vals, T)
     levels = R._levels(("list", T))
-    kind = rng.choice(["int", "int", "int2", "bool", "miss"])
     pre = []
     if rng.random() < 0.3 and levels >= 2:
         pre = [_rand_range(rng, 3) if rng.random() < 0.7 else ("at", rng.randint(-2, 2))]
@@ -487,8 +555,6 @@ def fam_getitem_array(rng):
         flatlen *= d
     arrs = []
     if kind == "miss":
-        if pre:
-            return None
         arrs = [("miss", [None if rng.random() < 0.3 else rng.randint(-2, 2) for _ in range(rng.randint(0, 4))])]
     elif kind == "bool":
         if pre:
@@ -506,6 +572,14 @@ def fam_getitem_array(rng):
         post = [_rand_range(rng, 3) if rng.random() < 0.6 else ("at", rng.randint(-2, 2))]
     if pre and flatlen == 0 and kind != "miss":
         return None      # KF-C01-empty-index-array
+    if pre and kind == "miss":
+        # KF-C01-empty-index-array also covers index arrays with missing values: nothing selected before it, or an
+        # empty index array, loses the outer dimension or raises
+        if len(arrs[0][1]) == 0:
+            return None
+        nsel = len(vals[slice(pre[0][1], pre[0][2], pre[0][3])]) if pre[0][0] == "rng" else 1
+        if nsel == 0:
+            return None
     items = pre + arrs + post
     chk = expect_getitem(vals, T, items, "x[%r] of %r" % (items, vals))
     if chk is None:
@@ -692,12 +766,47 @@ def fam_concat(rng):
             Ts.append(_retype_leaf(T0, rng.choice(LEAF_ALL)))
         else:
             Ts.append(gen_pure(rng, rng.randint(0, 2), regular=0.15, leafrec=0.15))
+    def has_option(t):
+        if t[0] == "option":
+            return True
+        if t[0] in ("list", "regular"):
+            return has_option(t[1])
+        if t[0] == "record":
+            return any(has_option(x) for x in t[2])
+        return False
+
+    def permute_fields(t):
+        """the same record type with its fields stored in another order (same set of names)"""
+        if t[0] == "record" and t[1] is not None and len(t[1]) > 1:
+            order = list(range(len(t[1])))
+            rng.shuffle(order)
+            return ("record", [t[1][i] for i in order], [t[2][i] for i in order])
+        if t[0] in ("list", "option"):
+            return (t[0], permute_fields(t[1]))
+        if t[0] == "regular":
+            return ("regular", permute_fields(t[1]), t[2])
+        return t
+    anyopt = any(has_option(t) for t in Ts)       # KF-C08-merge-option-with-indexed: IndexedArray nodes only without options
     arrays, lays = [], []
     for T in Ts:
         vals = [L.gen_value(rng, T) for _ in range(rng.randint(0, 3))]
         arrays.append(vals)
-        lays.append(L.Enc(rng, allow_indexed=False).encode(vals, T))      # KF-C08-merge-option-with-indexed
-    ref = [v for a in arrays for v in a]
+        TT = permute_fields(T) if (mode == "same" and rng.random() < 0.5) else T
+        vv = vals
+        if TT is not T:
+            def reorder(v, t):
+                if v is None:
+                    return None
+                if t[0] == "record":
+                    return {k: reorder(v[k], tt) for k, tt in zip(t[1], t[2])} if t[1] is not None else v
+                if t[0] in ("list", "regular"):
+                    return [reorder(e, t[1]) for e in v]
+                if t[0] == "option":
+                    return reorder(v, t[1])
+                return v
+            vv = [reorder(v, TT) for v in vals]
+        lays.append(L.Enc(rng, allow_indexed=not anyopt).encode(vv, TT))
+    ref = [v for a in arrays for v in a]      # (dict values compare by key set and values; order of the first array)
     mergebool = rng.random() < 0.5
     what = "concatenate(%r)" % (arrays,)
     leafs = []
@@ -713,7 +822,7 @@ def fam_concat(rng):
             want_dtype = str(np.result_type(*[np.dtype(l) for l in leafs]))
         elif not nonbool:
             want_dtype = "bool"
-    inner = expect_value(ref, what, cmp=loose)
+    inner = expect_value(ref, what, cmp=loose_unordered)
 
     def check(r):
         bad = inner(r)
